@@ -336,6 +336,9 @@ inductive FutSt
   | subOp (sock : Nat) (isSub : Bool) (topic : Bytes) (started : Bool) (todo : List Ident)
       (cur : Option (Ident × SendSt)) (failed : Bool)
   | close (sock : Nat)
+  /-- `proxy(front, back, capture)`: `phase` 0 = in `select!`, 1 = writing the copy to the capture
+  socket, 2 = forwarding; `fromFront`/`m` = the message in hand; `sub` = the send in progress -/
+  | proxy (front back : Nat) (cap : Option Nat) (phase : Nat) (fromFront : Bool) (m : Msg) (sub : FutSt)
   | fail (r : Res)
   | done
 deriving Repr
@@ -758,7 +761,69 @@ def pollFut (w : World) (f : FutSt) : World × FutSt × POut :=
   | .pubSend sid m => let (w, o) := pubSend w sid m; (w, .done, o)
   | .subOp sid isSub topic started todo cur failed => subOpPoll 64 w sid isSub topic started todo cur failed
   | .close sid => (dropSocket w sid, .done, .ready (.okErrs 0))
+  | .proxy _ _ _ _ _ _ _ => (w, .done, .ready (.err .other))     -- handled by `pollAny`
   | .fail _ => (w, .done, .ready (.err .other))
   | .done => (w, .done, .pending)
+
+/-! ### `proxy()` (`src/lib.rs`) -/
+
+/-- the future a `send(m)` on socket `sid` starts as -/
+def sendStartFut (w : World) (sid : Nat) (m : Msg) : FutSt :=
+  match getSock w sid with
+  | none => .fail "no-sock"
+  | some s =>
+    match s.typ with
+    | .pub | .xpub => .pubSend sid m
+    | .req => .reqSend sid m
+    | .rep => .repSend sid m
+    | .router => .routerSend sid m
+    | .dealer | .push => .sendRR sid m none
+    | _ => .fail "no-send"
+
+/-- the proxy returned (with an error): it owned the sockets, which are dropped with it -/
+def proxyEnd (w : World) (a b : Nat) (c : Option Nat) : World :=
+  let w := dropSocket (dropSocket w a) b
+  match c with
+  | some k => dropSocket w k
+  | none => w
+
+/-- one poll of the proxy future.  `select!` starts with a pseudo-randomly chosen branch; the
+model always tries the frontend first — when no send blocks, every ready message of both
+sides has been forwarded by the time the poll returns `Pending`, in either order. -/
+def proxyPoll : Nat → World → Nat → Nat → Option Nat → Nat → Bool → Msg → FutSt → World × FutSt × POut
+  | 0, w, a, b, c, ph, ff, m, sub => (w, .proxy a b c ph ff m sub, .pending)
+  | fuel+1, w, a, b, c, ph, ff, m, sub =>
+    if ph = 0 then
+      -- select! { frontend.recv(), backend.recv() }
+      let (w, o) := recvPoll 64 w a
+      match o with
+      | .ready (.okMsg msg) =>
+        match c with
+        | some k => proxyPoll fuel w a b c 1 true msg (sendStartFut w k msg)
+        | none => proxyPoll fuel w a b c 2 true msg (sendStartFut w b msg)
+      | .ready v => (proxyEnd w a b c, .done, .ready v)
+      | .pending =>
+        let (w, o) := recvPoll 64 w b
+        match o with
+        | .ready (.okMsg msg) =>
+          match c with
+          | some k => proxyPoll fuel w a b c 1 false msg (sendStartFut w k msg)
+          | none => proxyPoll fuel w a b c 2 false msg (sendStartFut w a msg)
+        | .ready v => (proxyEnd w a b c, .done, .ready v)
+        | .pending => (w, .proxy a b c 0 ff m sub, .pending)
+    else
+      let (w, sub', o) := pollFut w sub
+      match o with
+      | .pending => (w, .proxy a b c ph ff m sub', .pending)
+      | .ready .okUnit =>
+        if ph = 1 then proxyPoll fuel w a b c 2 ff m (sendStartFut w (if ff then b else a) m)
+        else proxyPoll fuel w a b c 0 ff [] .done
+      | .ready v => (proxyEnd w a b c, .done, .ready v)
+
+/-- one poll of any user future -/
+def pollAny (w : World) (f : FutSt) : World × FutSt × POut :=
+  match f with
+  | .proxy a b c ph ff m sub => proxyPoll 64 w a b c ph ff m sub
+  | f => pollFut w f
 
 end Zmq.W
